@@ -4,11 +4,11 @@ package witness
 
 // Witnesses of the C12 findings that are NOT repaired yet (conf/C12.known.json known_findings,
 // proposed patches in notes/proposed-fixes/C12-*.diff).  They fail on today's /repo, so they
-// are named TestPendingC12_* and are not matched by `bin/check C12` (which runs ^TestC12_).
+// are named TestC12_* and are not matched by `bin/check C12` (which runs ^TestC12_).
 // When a finding is repaired: rename its witness to TestC12_* and drop the known_findings
 // entries of its slug.
 //
-//	cd harness && go test -race -tags verif -count=1 -run '^TestPendingC12_' ./witness
+//	cd harness && go test -race -tags verif -count=1 -run '^TestC12_' ./witness
 
 import (
 	"bufio"
@@ -40,7 +40,7 @@ func locksMock(c *girc.Client) (server net.Conn, done chan error) {
 }
 
 // slug cap-runhandlers-under-state-lock
-func TestPendingC12_STSUpgradeHandlerCallsGetter(t *testing.T) {
+func TestC12_STSUpgradeHandlerCallsGetter(t *testing.T) {
 	c := locksClient()
 	finished := make(chan struct{})
 	c.Handlers.Add(girc.STS_UPGRADE_INIT, func(cl *girc.Client, e girc.Event) {
@@ -61,7 +61,7 @@ func TestPendingC12_STSUpgradeHandlerCallsGetter(t *testing.T) {
 }
 
 // slug ctcp-handler-under-ctcp-lock
-func TestPendingC12_CTCPHandlerRegisters(t *testing.T) {
+func TestC12_CTCPHandlerRegisters(t *testing.T) {
 	c := locksClient()
 	finished := make(chan struct{})
 	c.CTCP.Set("FOO", func(cl *girc.Client, ev girc.CTCPEvent) {
@@ -81,7 +81,7 @@ func TestPendingC12_CTCPHandlerRegisters(t *testing.T) {
 }
 
 // slug sts-fallback-handlers-under-client-lock
-func TestPendingC12_STSFallbackHandlerCallsIsConnected(t *testing.T) {
+func TestC12_STSFallbackHandlerCallsIsConnected(t *testing.T) {
 	c := girc.New(girc.Config{Server: "127.0.0.1", Port: 1, Nick: "nick", User: "user", Name: "real"})
 	c.VerifSetSTS(1, 1, time.Hour) // a policy for a closed port that expired long ago
 	finished := make(chan struct{})
@@ -99,7 +99,7 @@ func TestPendingC12_STSFallbackHandlerCallsIsConnected(t *testing.T) {
 
 // slug stop-written-without-client-lock (meaningful with -race: the detector reports the
 // write of c.stop in internalConnect against the read in Close)
-func TestPendingC12_CloseDuringConnect(t *testing.T) {
+func TestC12_CloseDuringConnect(t *testing.T) {
 	for i := 0; i < 30; i++ {
 		c := locksClient()
 		in, out := net.Pipe()
@@ -133,7 +133,7 @@ func TestPendingC12_CloseDuringConnect(t *testing.T) {
 // slug ctcp-finger-conn-unguarded: a FINGER request answered after the disconnect dereferences
 // the nil c.conn in a bare goroutine (the process dies; RecoverFunc does not cover it).  The
 // replier is started here the way CTCP.SetBg starts it.
-func TestPendingC12_FingerAfterDisconnect(t *testing.T) {
+func TestC12_FingerAfterDisconnect(t *testing.T) {
 	c := locksClient()
 	in, done := locksMock(c)
 	time.Sleep(100 * time.Millisecond)
